@@ -10,7 +10,7 @@
 (***************************************************************************)
 EXTENDS DKGProps, Json, SequencesExt, FiniteSetsExt
 
-CONSTANTS MaxRej, Emit, AccuseAny, Windows, Partial, MaxReload, MaxLag, Overlap
+CONSTANTS MaxRej, Emit, AccuseAny, Windows, Partial, MaxReload, MaxLag, Overlap, Timely, ReloadMax, Focus, Mixed
 
 VARIABLES st, g, last, hist
 vars == <<st, g, last, hist>>
@@ -23,12 +23,22 @@ Assign(S, dom) == {f \in [K -> dom \cup {Blank}] : /\ (\A i \in K \ S : f[i] = B
                                                     /\ (\E i \in S : f[i] # Blank)
                                                     /\ (Partial \/ (\A i \in S : f[i] # Blank))}
 
+(* Focus selects the Byzantine message kinds: "all"; "apol" (good commitment, full evaluation
+   messages, apologies of every shape, no accusations); "late" (commitments, full evaluation
+   messages, accusations, no apologies).  Mixed adds apologies with out-of-range entries and, for
+   messages with two or more entries, the reversed entry order. *)
+Named2(f) == Cardinality({i \in K : f[i] # Blank}) >= 2
+WithRev(o, S) == {OpR(o, x[1], x[2], FALSE) : x \in S} \cup
+                 (IF Mixed THEN {OpR(o, x[1], x[2], TRUE) : x \in {y \in S : Named2(y[2])}} ELSE {})
+Targets(b) == IF AccuseAny THEN K \ {b} ELSE Honest
+
 AlphabetSet ==
     UNION {
-        {Op("bcommit", b, [BlankVals EXCEPT ![b] = c]) : c \in {"good", "baddeg"}} \cup
+        {Op("bcommit", b, [BlankVals EXCEPT ![b] = c]) : c \in IF Focus = "apol" THEN {"good"} ELSE {"good", "baddeg"}} \cup
         {Op("beval", b, f) : f \in Assign(Honest, {"ok", "bad"})} \cup
-        {Op("bacc", b, f) : f \in Assign(IF AccuseAny THEN K \ {b} ELSE Honest, {"x"})} \cup
-        {Op("bapol", b, f) : f \in Assign(IF AccuseAny THEN K \ {b} ELSE Honest, {"ok", "bad"})}
+        (IF Focus = "apol" THEN {} ELSE WithRev("bacc", {<<b, f>> : f \in Assign(Targets(b), {"x"})})) \cup
+        (IF Focus = "late" THEN {} ELSE
+            WithRev("bapol", {<<b, f>> : f \in Assign(Targets(b), IF Mixed THEN {"ok", "bad", "oor"} ELSE {"ok", "bad"})}))
       : b \in Byz} \cup
     {Op("post", k, BlankVals) : k \in Honest} \cup
     (IF MaxReload > 0 THEN {Op("reload", k, BlankVals) : k \in Honest} ELSE {}) \cup
@@ -45,7 +55,7 @@ Init == st = [InitState EXCEPT !.ov = Overlap] /\ g = GhostInit /\ last = 0 /\ h
 
 Step(i) ==
     LET o == Alphabet[i] IN
-    /\ OpEnabledLag(st, o, MaxRej, Windows, MaxReload, MaxLag)
+    /\ OpEnabledX(st, o, MaxRej, Windows, MaxReload, MaxLag, Timely, ReloadMax)
     /\ LET x == ApplyOp(st, o) IN
        /\ st' = x.st
        /\ g' = GhostNext(g, st, o, x.out)
@@ -66,7 +76,13 @@ Agreement == \A i, j \in Honest :
         /\ Cardinality({d \in K : st.kp[i].qual[d]}) >= T
 
 LivePremise == Byz = {} /\ \A i \in K : g.cin[i] /\ g.ein[i]
-EmitFinal == (~Emit) \/ ~Final(st) \/ PrintT(<<"B", ToJson([h |-> hist, live |-> LivePremise])>>)
+(* behaviours that are always replayed: a message whose peculiarity leaves no trace in the model
+   (reversed entries, out-of-range entry) followed by a reload of an honest keyper; a Byzantine
+   message in the block in which the previous eon is finalised (the real shiftPhases ranges over a
+   Go map there: repeated to sample both orders) *)
+Prio == \/ st.tags.rv /\ st.tags.oor /\ \E i \in Honest : st.rl[i] > st.tags.at
+        \/ st.tags.bnd
+EmitFinal == (~Emit) \/ ~Final(st) \/ PrintT(<<"B", ToJson([h |-> hist, live |-> LivePremise \/ Prio])>>)
 View == <<st, g>>
 
 =============================================================================
